@@ -786,3 +786,38 @@ def spaths(body_or_fn, limit: int = 4000) -> List[SPath]:
             q.conds = c
             out.append(q)
     return out
+
+
+def eval_order(nodes: Sequence[ast.AST]) -> Iterator[ast.AST]:
+    """Sub-expressions of simple statements in (approximate) evaluation order: operands before the operation, left to right,
+    the value of an assignment before its target, a conditional expression's test first."""
+    def rec(n: ast.AST) -> Iterator[ast.AST]:
+        if isinstance(n, (ast.Lambda, ast.FunctionDef, ast.AsyncFunctionDef, ast.ClassDef)):
+            return
+        if isinstance(n, (ast.Assign, ast.AnnAssign, ast.AugAssign)):
+            if getattr(n, "value", None) is not None:
+                yield from rec(n.value)
+            for t in (n.targets if isinstance(n, ast.Assign) else [n.target]):
+                yield from rec(t)
+            yield n
+            return
+        if isinstance(n, ast.IfExp):
+            yield from rec(n.test)
+            yield from rec(n.body)
+            yield from rec(n.orelse)
+            yield n
+            return
+        for c in ast.iter_child_nodes(n):
+            yield from rec(c)
+        yield n
+    for x in nodes:
+        yield from rec(x)
+
+
+def flat_concat(e: ast.expr) -> List[ast.expr]:
+    """Operands of a `+` chain, empty bytes literals dropped."""
+    if isinstance(e, ast.BinOp) and isinstance(e.op, ast.Add):
+        return flat_concat(e.left) + flat_concat(e.right)
+    if const_bytes(e) == b"" or ast.unparse(e) in ("bytes()", "bytearray()"):
+        return []
+    return [e]
